@@ -33,6 +33,10 @@ POOLS = {
     "objint": [None, 1, 2, 10, 3, -4],
     "objstr": [None, "a", "b", "10", "9", "B"],
     "ustr": ["", "a", "b", "ab", "B", "zz"],
+    # object columns with unusual elements (used by the aliasing / mutation check only): a float NaN kept as an element
+    # (object arrays from pandas, np.where, Vector.fast), and list elements (what regex.findall / split produce)
+    "objnan": [None, "nan", 1, 2.5, "a", "nan"],
+    "objlist": [None, ["a", "b"], ["c"], [], ["a", "b"], ["c", "d", "e"]],
 }
 
 NA_FIRST = {"str": True, "strlong": True, "ustr": True}
@@ -84,10 +88,10 @@ def make_array(kind, vals):
         return np.array([np.datetime64("NaT") if v is None else np.datetime64(v, "us") for v in vals], dtype="M8[us]")
     if kind == "timedelta":
         return np.array([np.timedelta64("NaT") if v is None else np.timedelta64(v, "s") for v in vals], dtype="m8[s]")
-    if kind in ("objint", "objstr", "objbool"):
+    if kind in ("objint", "objstr", "objbool", "objnan", "objlist"):
         a = np.empty(len(vals), dtype=object)
         for i, v in enumerate(vals):
-            a[i] = v
+            a[i] = float("nan") if (kind == "objnan" and v == "nan") else list(v) if isinstance(v, list) else v
         return a
     raise ValueError(kind)
 
@@ -106,7 +110,7 @@ def is_na_val(kind, v):
         return v == "nan"
     if kind in ("str", "strlong", "ustr"):
         return v == ""
-    if kind in ("date", "datetime", "timedelta", "objint", "objstr", "objbool"):
+    if kind in ("date", "datetime", "timedelta", "objint", "objstr", "objbool", "objnan", "objlist"):
         return v is None
     return False
 
